@@ -19,6 +19,8 @@ IndInitQ(its, rem) ==
   /\ added = rem \o its
   /\ Inv
 
+IndInit2 == IndInitQ(Gen(2), Gen(2))
 IndInit3 == IndInitQ(Gen(3), Gen(3))
+IndInit5 == IndInitQ(Gen(5), Gen(5))
 IndInit6 == IndInitQ(Gen(6), Gen(6))
 =============================================================================
